@@ -146,10 +146,10 @@ def dense_abs(cores):
 
 def fro(t):
     """Frobenius norm, computed on the entries divided by the largest one (no underflow / overflow of the squares)."""
-    v = widen(t).reshape(-1)
+    v = widen(t).reshape(-1).abs()          # real and non-negative: dividing a complex tensor by a denormal overflows
     if v.numel() == 0:
         return 0.0
-    m = float(v.abs().max())
+    m = float(v.max())
     if not (m > 0) or m != m or m == float("inf"):
         return m if m == m else float("nan")
     return m * float(torch.linalg.norm(v / m))
